@@ -1,4 +1,84 @@
-// unit `dec_comp` — composite decoders (C10)
+// unit `dec_comp` -- the COMPOSITE decoders of yrs: loops whose trip count comes from the input and collections that are
+// pre-allocated from untrusted counts.  Serves C10 ("arbitrary bytes => value or error, time and memory proportional to the
+// input, no panic / abort / stack overflow / unbounded loop; a decoded value can be encoded again") and C09 (round trip of
+// the delete-set layer).  Builds on the proved primitive layer (units lib0, lib0_v2, tags; shared text units/lib0_common/*).
+//
+//   units/dec_comp/env.rs   ClientID (stand-in) + the REAL ClientID::decode, allocation budget, sliced traits Decoder / Decode,
+//                           DecoderV1 (real), DecoderV2 (sliced), Decode::decode_v1 (the public entry point), counted lists
+//   units/dec_comp/ids.rs   yrs/src/id_set.rs   Range<u32>::decode, IdRanges<()>::decode, IdSet::decode
+//   units/dec_comp/sv.rs    yrs/src/state_vector.rs   StateVector::decode, Snapshot::decode
+//   units/dec_comp/aw.rs    yrs/src/sync/awareness.rs  AwarenessUpdate::decode  (+ string stand-ins)
+//   units/dec_comp/any.rs   yrs/src/any.rs      Any::decode / Any::decode_nested (recursive), Read::read_f32 / read_f64 / read_i64
+//   units/dec_comp/enc.rs   Range<u32> / IdRanges<()> / IdSet ::encode, EncoderV1, the round-trip theorems, observations
+//
+// CONTRACTS (per function; every body is the text of /repo, re-extracted on every run)
+//   (a) TOTAL     trait `Decode`: for every wf reader `decode` returns Ok / Err -- no overflow, no out-of-bounds, no failing
+//                 debug_assert!, termination (every loop has a `decreases`; for-loops over ranges terminate by construction);
+//                 it never rewinds and never reads beyond the input (`suffix_of`); PROGRESS: Ok ==> at least one byte was
+//                 consumed, and every loop iteration consumes >= c bytes (invariant `rest().len() + c * i <= s1.len()`;
+//                 c = 2 ranges / id-set items / state-vector pairs / map entries of Any, 3 awareness entries, 1 array
+//                 elements of Any), so the number of iterations is at most |input| / c: linear time.
+//                 `Decode::decode_v1(data: &[u8])` (the public entry point) has NO precondition.
+//   (b) BUDGET    every capacity request goes through `vx_budget(decoder).<ctor>(n)` (SUB rules), whose precondition is
+//                 `alloc_budget_ok`: n <= unread input bytes + 1024.
+//   (c) SHAPE     Range: start <= end;  IdRanges / IdSet / StateVector / AwarenessUpdate: |value| * c < bytes consumed (memory
+//                 of the VALUE proportional to the input);  every stored range has start <= end.  NOT guaranteed: canonical
+//                 form, non-empty per-client entries (see OBSERVATIONS in enc.rs: proved counter-examples).
+//                 `res is Ok ==> res.enc_ok()`: a decoded value satisfies the precondition of its encoder.
+//   (d) EXACT     equality with a spec decoder on ANY byte string (None = Err, Some((v, k)) = v from the first k bytes):
+//                 dec_range / dec_ranges / dec_idset / dec_snapshot for v1 decoders (`D::v1()`), dec_sv / dec_au for every
+//                 decoder (they use `Read` methods only).  ROUND TRIP (v1): theorem_range_round_trip,
+//                 theorem_ranges_round_trip, theorem_idset_round_trip: decode(encode(x) ++ tail) == (x, tail) for every x with
+//                 start <= end ranges, 53-bit clients and < 2^32 elements -- canonical or not, whatever order the map
+//                 iterator enumerates the clients in.
+//   Any::decode_nested: (a) for EVERY depth, (b), BOUNDED RECURSION `decreases MAX_DECODE_DEPTH + 1 - depth`.
+//
+// DECODER MODEL  trait `Decoder: Read` is SLICED to reset_ds_cur_val / read_ds_clock / read_ds_len with an ABSTRACT contract
+//   (suffix + progress) that the real bodies of BOTH DecoderV1 and (sliced) DecoderV2 are verified against; a decoder with
+//   `v1()` (DecoderV1) additionally has the exact v1 semantics (read_ds_* = u32 var-int, reset = no-op).  (a)-(c) therefore
+//   hold for v1 and v2 input, (d) for v1.  `read_string` is the default `Read::read_string` (DecoderV2 overrides it with a
+//   separate string column: not modelled; only AwarenessUpdate / Any use it and both are decoded from v1 / plain readers).
+//
+// FINDINGS (all reported, all REPAIRED in /repo meanwhile; each is now an ordinary discharged obligation and has a canary)
+//   F-DC-1 idranges_decode::pre [alloc_budget_ok]  `SmallVec::with_capacity(len as usize)`, len = untrusted u32.
+//          `01 00 FF FF FF FF 0F` (IdSet::decode_v1): 32 GiB request -> "memory allocation of 34359738360 bytes failed", SIGABRT.
+//   F-DC-3 sv_decode::pre [alloc_budget_ok]  `HashMap::with_capacity_and_hasher(len, ..)`.  `FF FF FF FF 0F`: 146 GB request, SIGABRT.
+//   F-DC-5 au_decode::pre [alloc_budget_ok]  `HashMap::with_capacity(len)`, len: usize.  `FF FF FF FF FF FF FF FF FF 01`:
+//          panic "Hash table capacity overflow";  `80 80 80 80 80 20`: SIGABRT.
+//   F-DC-7 any_decode::pre [alloc_budget_ok] (2 sites)  `75 FF FF FF FF FF FF FF FF FF 01`: panic "capacity overflow";
+//          `76 ..`: "Hash table capacity overflow";  `75 80 80 80 80 80 20`: 26 TB request, SIGABRT.
+//   F-DC-2/4/6 idset_decode / sv_decode / au_decode ::pre [client_id_53bit]  `ClientID::new(untrusted u64)`:
+//          `01 80 80 80 80 80 80 80 10 00` etc. (client 2^53): debug build panics (debug_assert!), release build silently aliases
+//          the id to ClientID(0).  Repair: `ClientID::decode(x)?` (real body under contract here).
+//   F-DC-8 Any::decode recursed without depth limit (not expressible as an obligation before the repair; the old measure
+//          `decreases rest().len()` only gave depth <= |input|): 30000 x `75 01` + `7E` (60 001 bytes) overflows an 8 MB stack,
+//          SIGABRT.  Repair: decode_nested(decoder, depth) with MAX_DECODE_DEPTH = 512, now the termination measure.
+//   NOTE on masking: Verus reports a limited number of errors per function; while F-DC-7 was open, a missing proof hint in
+//   the same function was hidden behind it.  After a repair every obligation of the function has to be looked at again.
+//
+// TRUSTED (each declared with its std-documented contract)
+//   A4   axiom_client_id_ord_key_model / axiom_client_id_hash_key_model: derived Ord / Hash+Eq of ClientID are lawful keys
+//        (same assumptions as units ids_lift / sv; vstd's BTreeMap / HashMap specifications are conditioned on them)
+//   A9   ReadStr::read_string (stand-in of unit tags for `unsafe { from_utf8_unchecked(self.read_buf()?) }`; uninterpreted utf8 / from_utf8)
+//   A2   vx_arc_str (`Arc<str>::from(&str)`), vx_arc_bytes (`Arc<[u8]>::from(&[u8])`), vx_i64_from_be_bytes, and
+//        assume_specification of f32::from_be_bytes / f64::from_be_bytes (total, value unspecified); opaque types Str / Bytes
+//   R13  ClientID is a stand-in (`ClientID(pub u64)` holding the yjs value); `ClientID::new` carries the real body's
+//        `debug_assert!(value & MASK == 0)` as its precondition, `get` returns the value.  `ClientID::decode` is the real body.
+//   vstd's specifications of Vec / HashMap / BTreeMap / Range iterators; units/ids_common/* and units/lib0_common/* as included.
+//   The allocation helpers (VxBudget) are VERIFIED wrappers of the std constructors, not trusted: the budget is a precondition.
+//   `Arc<[Any]>` / `Arc<HashMap<String, Any>>` are modelled as owned `Vec<Any>` / `HashMap<String, Any>` (AnyArr / AnyMap).
+//   `#[derive(Default)] for IdSet` is written out (as in unit ids_lift).
+//
+// REWRITES (logged per extract in the evidence): R1 (SmallVec -> Vec), R10 (visibility); SUB for the capacity constructors
+//   (-> vx_budget(decoder).<ctor>::<T>), `BuildHasherDefault::default()` -> VxHasher, the hasher type parameter of StateVector,
+//   `Arc<..>` payload spellings and constructors (`.into()`, `Arc::from`, `Arc::new`), `crate::encoding::read::Error` -> Error,
+//   `i64::from_be_bytes` -> wrapper, `(&client_id, block)` -> `(client_id, block)` (reference pattern), field visibility of
+//   DecoderV1.cursor / EncoderV1.buf; INLINE of IdRanges::iter, IdMapInner::iter and `impl From<&[u8]> for DecoderV1`
+//   (accessor bodies checked on every run).  `impl Decode for X` / `impl Encode for X` stay trait impls of the sliced traits.
+//
+// NOT COVERED: IdMap<A>::decode (serde_json attributes), Update / Block decoding (pointer core), IndexScope / StickyIndex
+//   (unit sticky), StateVector / AwarenessUpdate / Snapshot / Any ENCODERS and their round trips, Any's result size, the
+//   exact value of floats, stack usage as such (only the recursion depth is bounded), Drop of deeply nested values.
 #![allow(unused_imports, unused_variables, unused_mut, dead_code, unused_parens, unused_braces, unused_assignments)]
 use vstd::prelude::*;
 use vstd::slice::*;
@@ -11,7 +91,7 @@ use vstd::std_specs::iter::IteratorSpec;
 
 verus! {
 
-/*@rules R1 R9 R10 @*/
+/*@rules R1 R10 @*/
 
 /*@include units/lib0_common/base.rs @*/
 
